@@ -83,7 +83,7 @@ GHOST static void mchan_final(void) {
     vs_label_add("mchan_messages", m_recvs_done);
     vs_label_add("mchan_send_blocked", m_send_blocked);
     vs_label_add("mchan_recv_blocked", m_recv_blocked);
-    if (m_send_blocked + m_recv_blocked > 0) vs_label_add("nontrivial", 1);
+    if (m_send_blocked + m_recv_blocked > 0) rt_nontrivial("mchan");
   }
   vs_rt_exit();
 }
